@@ -978,4 +978,544 @@ theorem newFinite_eq (mk : Entry → Gen.Message) (fuel : Nat) (count : Nat) (au
     simp only [this, Bool.false_eq_true, if_false, hc, bind, Except.bind, hmk]
     cases auto <;> simp [pure, Except.pure, toGenFin, toGenQ, genCur, gSlot]
 
+/-! ## `ValidReplayer` -/
+
+def gSlotV (mk : Entry → Gen.Message) : Slot → Gen.messageWithTopicsAndExpiry
+  | none => { exp := 0, messageWithTopics := { message := none, topics := [] } }
+  | some e => { exp := e.exp, messageWithTopics := { message := some (mk e), topics := e.topics } }
+
+theorem gSlotV_none (mk : Entry → Gen.Message) : gSlotV mk none = default := rfl
+
+/-- the translated replayer of a model replayer whose clock reads `now`; the model's `lastGC = none` is the zero Time -/
+def toGenValid (mk : Entry → Gen.Message) (now : Int) (v : Valid) : Gen.ValidReplayer :=
+  { lastGC := v.lastGC.getD 0, Now := pure now, currentID := genCur v.currentID,
+    messages := toGenQ (gSlotV mk) v.messages, ttl := v.ttl, GCInterval := v.gcInterval }
+
+theorem shouldGC_eq (mk : Entry → Gen.Message) (fuel : Nat) (now clock : Int) (v : Valid) :
+    Gen.ValidReplayer_shouldGC fuel (toGenValid mk clock v) now = .ok (v.shouldGC now, toGenValid mk clock v) := rfl
+
+/-- with the queue replaced -/
+theorem toGenValid_messages (mk : Entry → Gen.Message) (clock : Int) (v : Valid) (q : Queue) :
+    ({ toGenValid mk clock v with messages := toGenQ (gSlotV mk) q } : Gen.ValidReplayer) =
+      toGenValid mk clock { v with messages := q } := rfl
+
+def slotLive (now : Int) : Slot → Bool
+  | some e => decide (e.exp > now)
+  | none => false
+
+/-- how the translated collection loop ends, for an outcome of the model's -/
+def GcAgrees (mk : Entry → Gen.Message) (clock : Int) (v : Valid) (res : QRes Queue)
+    (lhs : GoM (Gen.ValidReplayer ⊕ Gen.ValidReplayer)) : Prop :=
+  match res with
+  | .ok q' => lhs = .ok (.inl (toGenValid mk clock { v with messages := q' }))
+  | .panic => ∃ msg, lhs = .error (.panic msg)
+
+/-- the collection loop of `doGC`: `count` iterations at most (the instants are after the zero Time: `0 < now`) -/
+theorem gcLoop_eq (mk : Entry → Gen.Message) (now clock : Int) (hnow : 0 < now) (v : Valid) :
+    ∀ (n : Nat) (q : Queue) (fuel F : Nat), n = q.count → n < F →
+      GcAgrees mk clock v (Valid.gcLoop n now q)
+        (loopM (Gen.ValidReplayer_doGC_loop1 fuel now) F (toGenValid mk clock { v with messages := q })) := by
+  intro n
+  induction n with
+  | zero =>
+    intro q fuel F hn hF
+    obtain ⟨k, rfl⟩ : ∃ k, F = k + 1 := ⟨F - 1, by omega⟩
+    have hstep : Gen.ValidReplayer_doGC_loop1 fuel now (toGenValid mk clock { v with messages := q }) =
+        .ok (Step.brk (toGenValid mk clock { v with messages := q })) := by
+      unfold Gen.ValidReplayer_doGC_loop1
+      have : decide (((toGenValid mk clock { v with messages := q }).messages.count) > (0 : Int)) = false := by
+        simp [toGenValid]; omega
+      simp [this, pure, Except.pure]
+    unfold Valid.gcLoop loopM GcAgrees
+    rw [hstep]; rfl
+  | succ n ih =>
+    intro q fuel F hn hF
+    obtain ⟨k, rfl⟩ : ∃ k, F = k + 1 := ⟨F - 1, by omega⟩
+    have hcnt : q.count > 0 := by omega
+    have hc : decide (((toGenValid mk clock { v with messages := q }).messages.count) > (0 : Int)) = true := by
+      simp [toGenValid]; omega
+    unfold Valid.gcLoop
+    simp only [hcnt, if_true]
+    cases hb : q.buf[q.head]? with
+    | none =>
+      have hstep : Gen.ValidReplayer_doGC_loop1 fuel now (toGenValid mk clock { v with messages := q }) =
+          .error (.panic "index out of range") := by
+        unfold Gen.ValidReplayer_doGC_loop1
+        simp only [hc, if_true, bind, Except.bind]
+        have : idx (toGenValid mk clock { v with messages := q }).messages.buf (toGenValid mk clock { v with messages := q }).messages.head =
+            .error (.panic "index out of range") := idx_map_panic (gSlotV mk) q.buf q.head hb
+        rw [this]
+      refine ⟨"index out of range", ?_⟩
+      unfold loopM; rw [hstep]
+    | some slot =>
+      have hidx : idx (toGenValid mk clock { v with messages := q }).messages.buf (toGenValid mk clock { v with messages := q }).messages.head =
+          .ok (gSlotV mk slot) := idx_map_ok (gSlotV mk) q.buf q.head slot hb
+      show GcAgrees mk clock v (if slotLive now slot = true then .ok q else
+        match q.dequeue with
+        | .panic => .panic
+        | .ok q' => Valid.gcLoop n now q') _
+      have hg : decide ((gSlotV mk slot).exp > now) = slotLive now slot := by
+        cases slot with
+        | none => simp [gSlotV, slotLive]; omega
+        | some e => simp [gSlotV, slotLive]
+      cases hexp : slotLive now slot with
+      | true =>
+        rw [hexp] at hg
+        have hstep : Gen.ValidReplayer_doGC_loop1 fuel now (toGenValid mk clock { v with messages := q }) =
+            .ok (Step.brk (toGenValid mk clock { v with messages := q })) := by
+          unfold Gen.ValidReplayer_doGC_loop1
+          simp only [hc, if_true, bind, Except.bind, hidx, hg, pure, Except.pure]
+        simp only [if_true]
+        unfold loopM GcAgrees; rw [hstep]; rfl
+      | false =>
+        rw [hexp] at hg
+        simp only [Bool.false_eq_true, if_false]
+        have hdq := dequeue_eqG (gSlotV mk) (gSlotV_none mk) fuel q hcnt
+        cases hd : q.dequeue with
+        | panic =>
+          rw [hd] at hdq
+          obtain ⟨msg, hm⟩ := hdq
+          have hstep : Gen.ValidReplayer_doGC_loop1 fuel now (toGenValid mk clock { v with messages := q }) =
+              .error (.panic msg) := by
+            unfold Gen.ValidReplayer_doGC_loop1
+            simp only [hc, if_true, bind, Except.bind, hidx, hg, Bool.false_eq_true, if_false]
+            have : Gen.queue_dequeue fuel (toGenValid mk clock { v with messages := q }).messages = .error (.panic msg) := hm
+            rw [this]
+          refine ⟨msg, ?_⟩
+          unfold loopM; rw [hstep]
+        | ok q' =>
+          rw [hd] at hdq
+          have hm : Gen.queue_dequeue fuel (toGenValid mk clock { v with messages := q }).messages = .ok (toGenQ (gSlotV mk) q') := hdq
+          have hstep : Gen.ValidReplayer_doGC_loop1 fuel now (toGenValid mk clock { v with messages := q }) =
+              .ok (Step.next (toGenValid mk clock { v with messages := q' })) := by
+            unfold Gen.ValidReplayer_doGC_loop1
+            simp only [hc, if_true, bind, Except.bind, hidx, hg, Bool.false_eq_true, if_false, hm, pure, Except.pure]
+            rfl
+          have hq'c : q'.count = q.count - 1 := by
+            unfold Queue.dequeue at hd
+            split at hd
+            · cases hd; rfl
+            · cases hd
+          have := ih q' fuel k (by omega) (by omega)
+          show GcAgrees mk clock v (Valid.gcLoop n now q') _
+          unfold loopM; rw [hstep]
+          exact this
+
+theorem tdiv_nat (L k : Nat) : Int.tdiv (L : Int) (k : Int) = ((L / k : Nat) : Int) := by
+  rw [Int.natCast_tdiv_eq_ediv]; rfl
+
+theorem toGenValid_len (mk : Entry → Gen.Message) (clock : Int) (v : Valid) :
+    len (toGenValid mk clock v).messages.buf = (v.messages.buf.length : Int) := by
+  simp [toGenValid, len]
+
+/-- `doGC(now)`: collect from the head, then shrink if at most a quarter is in use -/
+theorem doGC_eq (mk : Entry → Gen.Message) (now clock : Int) (hnow : 0 < now) (v : Valid) (fuel : Nat)
+    (hf : v.messages.count < fuel) :
+    AgreesV (toGenValid mk clock) (Gen.ValidReplayer_doGC fuel (toGenValid mk clock v) now) (v.doGC now) := by
+  unfold Gen.ValidReplayer_doGC Valid.doGC Valid.doGCq
+  have hl := gcLoop_eq mk now clock hnow v v.messages.count v.messages fuel fuel rfl hf
+  have hv : ({ v with messages := v.messages } : Valid) = v := rfl
+  rw [hv] at hl
+  simp only [bind, Except.bind]
+  cases hg : Valid.gcLoop v.messages.count now v.messages with
+  | panic =>
+    rw [hg] at hl
+    obtain ⟨msg, hm⟩ := hl
+    exact ⟨msg, by rw [hm]⟩
+  | ok q =>
+    rw [hg] at hl
+    have hm : _ = _ := hl
+    rw [hm]
+    simp only [toGenValid_len]
+    have hcq : (toGenValid mk clock { v with messages := q }).messages.count = (q.count : Int) := rfl
+    have h4 : Int.tdiv (q.buf.length : Int) (4 : Int) = ((q.buf.length / 4 : Nat) : Int) := tdiv_nat q.buf.length 4
+    have h2 : Int.tdiv (q.buf.length : Int) (2 : Int) = ((q.buf.length / 2 : Nat) : Int) := tdiv_nat q.buf.length 2
+    rw [hcq, h4, h2]
+    by_cases hsh : q.count ≤ q.buf.length / 4
+    · have c1 : decide ((q.count : Int) ≤ ((q.buf.length / 4 : Nat) : Int)) = true := by simp; omega
+      simp only [c1, if_true, hsh]
+      by_cases hmin : q.buf.length / 2 < minCap
+      · have c2 : decide ((((q.buf.length / 2 : Nat) : Int)) < (4 : Int)) = true := by
+          unfold minCap at hmin; simp; omega
+        simp only [c2, if_true, hmin]
+        have hr := resize_eqG (gSlotV mk) (gSlotV_none mk) fuel q minCap
+        have hmc : ((minCap : Nat) : Int) = (4 : Int) := rfl
+        rw [hmc] at hr
+        cases hrz : q.resize minCap with
+        | panic => rw [hrz] at hr; obtain ⟨msg, hm2⟩ := hr; exact ⟨msg, by
+            have : Gen.queue_resize fuel (toGenValid mk clock { v with messages := q }).messages 4 = .error (.panic msg) := hm2
+            rw [this]⟩
+        | ok q' =>
+          rw [hrz] at hr
+          have : Gen.queue_resize fuel (toGenValid mk clock { v with messages := q }).messages 4 = .ok (toGenQ (gSlotV mk) q') := hr
+          rw [this]; rfl
+      · have c2 : decide ((((q.buf.length / 2 : Nat) : Int)) < (4 : Int)) = false := by
+          unfold minCap at hmin; simp; omega
+        simp only [c2, Bool.false_eq_true, if_false, hmin]
+        have hr := resize_eqG (gSlotV mk) (gSlotV_none mk) fuel q (q.buf.length / 2)
+        cases hrz : q.resize (q.buf.length / 2) with
+        | panic => rw [hrz] at hr; obtain ⟨msg, hm2⟩ := hr; exact ⟨msg, by
+            have : Gen.queue_resize fuel (toGenValid mk clock { v with messages := q }).messages ((q.buf.length / 2 : Nat) : Int) = .error (.panic msg) := hm2
+            rw [this]⟩
+        | ok q' =>
+          rw [hrz] at hr
+          have : Gen.queue_resize fuel (toGenValid mk clock { v with messages := q }).messages ((q.buf.length / 2 : Nat) : Int) = .ok (toGenQ (gSlotV mk) q') := hr
+          rw [this]; rfl
+    · have c1 : decide ((q.count : Int) ≤ ((q.buf.length / 4 : Nat) : Int)) = false := by simp; omega
+      simp only [c1, Bool.false_eq_true, if_false, hsh, pure, Except.pure, AgreesV]
+
+/-- `GC()` -/
+theorem GC_eq (mk : Entry → Gen.Message) (now : Int) (hnow : 0 < now) (v : Valid) (fuel : Nat)
+    (hf : v.messages.count < fuel) :
+    AgreesV (toGenValid mk now) (Gen.ValidReplayer_GC fuel (toGenValid mk now v)) (v.gc now) := by
+  unfold Gen.ValidReplayer_GC Valid.gc
+  have hn : (toGenValid mk now v).Now = .ok now := rfl
+  simp only [bind, Except.bind, hn]
+  have h := doGC_eq mk now now hnow v fuel hf
+  cases hd : v.doGC now with
+  | panic => rw [hd] at h; obtain ⟨msg, hm⟩ := h; exact ⟨msg, by rw [hm]⟩
+  | ok v' => rw [hd] at h; have hm : _ = _ := h; rw [hm]; rfl
+
+/-- the end of `Put`: the entry goes into the ring -/
+theorem put_j3_eq (mk : Entry → Gen.Message) (clock now : Int) (v : Valid) (k : Nat) (id' : EventID) (topics : List Bytes)
+    (m : Gen.Message)
+    (hmk : ∀ id' ex, mk { msg := k, id := id', topics := topics, exp := ex } = { m with ID := genID id' }) (fuel : Nat) :
+    AgreesV (fun q' => (some (mk { msg := k, id := id', topics := topics, exp := now + v.ttl }), (none : Option String),
+        toGenValid mk clock { v with messages := q' }))
+      (Gen.ValidReplayer_Put_j3 fuel (toGenValid mk clock v) (some { m with ID := genID id' }) topics now)
+      (v.messages.enqueue { msg := k, id := id', topics := topics, exp := now + v.ttl }) := by
+  unfold Gen.ValidReplayer_Put_j3
+  have hslot : ({ exp := now + (toGenValid mk clock v).ttl, messageWithTopics := { message := some { m with ID := genID id' }, topics := topics } } : Gen.messageWithTopicsAndExpiry) = gSlotV mk (some { msg := k, id := id', topics := topics, exp := now + v.ttl }) := by
+    simp [gSlotV, hmk id' (now + v.ttl), toGenValid]
+  have hq : (toGenValid mk clock v).messages = toGenQ (gSlotV mk) v.messages := rfl
+  rw [hslot, hq]
+  have hen := enqueue_eqG (gSlotV mk) fuel v.messages { msg := k, id := id', topics := topics, exp := now + v.ttl }
+  simp only [bind, Except.bind]
+  cases he : v.messages.enqueue { msg := k, id := id', topics := topics, exp := now + v.ttl } with
+  | panic => rw [he] at hen; obtain ⟨msg, hm⟩ := hen; exact ⟨msg, by rw [hm]⟩
+  | ok q' =>
+    rw [he] at hen
+    have hm : _ = _ := hen
+    rw [hm]
+    simp only [AgreesV, pure, Except.pure, hmk id' (now + v.ttl)]
+    rfl
+
+/-- the second half of `Put` (`putStore`): `ensureID`, grow when full, store with `exp = now + ttl` -/
+theorem putStore_eq (mk : Entry → Gen.Message) (clock now : Int) (v : Valid) (k : Nat) (id : EventID) (topics : List Bytes)
+    (m : Gen.Message) (hm : m.ID = genID id)
+    (hmk : ∀ id' ex, mk { msg := k, id := id', topics := topics, exp := ex } = { m with ID := genID id' })
+    (hc : ∀ c, v.currentID = some c → c + 1 < 18446744073709551616) (fuel : Nat)
+    (hf : ∀ c, v.currentID = some c → (fmtUint c).length < fuel) :
+    PutAgrees mk (toGenValid mk clock) (v.putStore now k id topics)
+      (Gen.ValidReplayer_Put_j2 fuel (toGenValid mk clock v) (some m) topics now) := by
+  unfold Gen.ValidReplayer_Put_j2 Valid.putStore
+  simp only [bind, Except.bind, derefPtr, pure, Except.pure]
+  have he := ensureID_eq fuel m id hm v.currentID hc hf
+  have hcur : (toGenValid mk clock v).currentID = genCur v.currentID := rfl
+  rw [hcur, he]
+  cases hr : Model.ensureID id v.currentID with
+  | error e => simp only [PutAgrees]; rfl
+  | ok p =>
+    obtain ⟨id', cur'⟩ := p
+    simp only [bne_self_eq_false, Bool.false_eq_true, if_false, toGenValid, toGenQ_count, toGenQ_buf, len, List.length_map]
+    unfold Valid.growIfFull
+    have hres : ∀ (n : Nat), AgreesV (toGenQ (gSlotV mk))
+        (Gen.queue_resize fuel (toGenQ (gSlotV mk) v.messages) (n : Int)) (v.messages.resize n) :=
+      fun n => resize_eqG (gSlotV mk) (gSlotV_none mk) fuel v.messages n
+    by_cases hfull : v.messages.count = v.messages.buf.length
+    · have c1 : ((v.messages.count : Int) == (v.messages.buf.length : Int)) = true := by simp; omega
+      simp only [c1, if_true, if_pos hfull]
+      by_cases hmin : v.messages.buf.length * 2 < minCap
+      · have c2 : decide ((v.messages.buf.length : Int) * 2 < 4) = true := by unfold minCap at hmin; simp; omega
+        simp only [c2, if_true, if_pos hmin]
+        have hr4 := hres minCap
+        have hmc : ((minCap : Nat) : Int) = (4 : Int) := rfl
+        rw [hmc] at hr4
+        cases hrz : v.messages.resize minCap with
+        | panic => rw [hrz] at hr4; obtain ⟨msg, hm2⟩ := hr4; exact ⟨msg, by rw [hm2]⟩
+        | ok q =>
+          rw [hrz] at hr4
+          have hm2 : _ = _ := hr4
+          rw [hm2]
+          simp only []
+          have hj3 := put_j3_eq mk clock now { v with currentID := cur', messages := q } k id' topics m hmk fuel
+          cases hen : q.enqueue { msg := k, id := id', topics := topics, exp := now + v.ttl } with
+          | panic => rw [show ({ v with currentID := cur', messages := q } : Valid).messages = q from rfl, hen] at hj3
+                     obtain ⟨msg, hm3⟩ := hj3; exact ⟨msg, hm3⟩
+          | ok q' => rw [show ({ v with currentID := cur', messages := q } : Valid).messages = q from rfl, hen] at hj3
+                     exact hj3
+      · have c2 : decide ((v.messages.buf.length : Int) * 2 < 4) = false := by unfold minCap at hmin; simp; omega
+        simp only [c2, Bool.false_eq_true, if_false, if_neg hmin]
+        have hr2 := hres (v.messages.buf.length * 2)
+        have hcast : ((v.messages.buf.length * 2 : Nat) : Int) = (v.messages.buf.length : Int) * 2 := by omega
+        rw [hcast] at hr2
+        cases hrz : v.messages.resize (v.messages.buf.length * 2) with
+        | panic => rw [hrz] at hr2; obtain ⟨msg, hm2⟩ := hr2; exact ⟨msg, by rw [hm2]⟩
+        | ok q =>
+          rw [hrz] at hr2
+          have hm2 : _ = _ := hr2
+          rw [hm2]
+          simp only []
+          have hj3 := put_j3_eq mk clock now { v with currentID := cur', messages := q } k id' topics m hmk fuel
+          cases hen : q.enqueue { msg := k, id := id', topics := topics, exp := now + v.ttl } with
+          | panic => rw [show ({ v with currentID := cur', messages := q } : Valid).messages = q from rfl, hen] at hj3
+                     obtain ⟨msg, hm3⟩ := hj3; exact ⟨msg, hm3⟩
+          | ok q' => rw [show ({ v with currentID := cur', messages := q } : Valid).messages = q from rfl, hen] at hj3
+                     exact hj3
+    · have c1 : ((v.messages.count : Int) == (v.messages.buf.length : Int)) = false := by simp; omega
+      simp only [c1, Bool.false_eq_true, if_false, if_neg hfull]
+      have hj3 := put_j3_eq mk clock now { v with currentID := cur' } k id' topics m hmk fuel
+      cases hen : v.messages.enqueue { msg := k, id := id', topics := topics, exp := now + v.ttl } with
+      | panic => rw [show ({ v with currentID := cur' } : Valid).messages = v.messages from rfl, hen] at hj3
+                 obtain ⟨msg, hm3⟩ := hj3; exact ⟨msg, hm3⟩
+      | ok q' => rw [show ({ v with currentID := cur' } : Valid).messages = v.messages from rfl, hen] at hj3
+                 exact hj3
+
+theorem doGC_currentID (v v' : Valid) (now : Int) (h : v.doGC now = .ok v') : v'.currentID = v.currentID := by
+  unfold Valid.doGC at h
+  cases hq : Valid.doGCq now v.messages with
+  | panic => rw [hq] at h; cases h
+  | ok q => rw [hq] at h; cases h; rfl
+
+/-- `Put` from the collection on: `if shouldGC { doGC; lastGC = now }`, then `putStore` -/
+theorem put_j1_eq (mk : Entry → Gen.Message) (now : Int) (hnow : 0 < now) (v1 : Valid)
+    (k : Nat) (id : EventID) (topics : List Bytes) (m : Gen.Message) (hm : m.ID = genID id)
+    (hmk : ∀ id' ex, mk { msg := k, id := id', topics := topics, exp := ex } = { m with ID := genID id' })
+    (hc : ∀ c, v1.currentID = some c → c + 1 < 18446744073709551616) (fuel : Nat)
+    (hf : ∀ c, v1.currentID = some c → (fmtUint c).length < fuel) (hfc : v1.messages.count < fuel) :
+    PutAgrees mk (toGenValid mk now)
+      (match (if v1.shouldGC now then
+          (match v1.doGC now with
+          | QRes.panic => (QRes.panic : QRes Valid)
+          | QRes.ok v' => QRes.ok { v' with lastGC := some now })
+        else QRes.ok v1) with
+      | QRes.panic => QRes.panic
+      | QRes.ok v2 => v2.putStore now k id topics)
+      (Gen.ValidReplayer_Put_j1 fuel (toGenValid mk now v1) (some m) topics now) := by
+  unfold Gen.ValidReplayer_Put_j1
+  simp only [bind, Except.bind, shouldGC_eq]
+  cases hs : v1.shouldGC now with
+  | false =>
+    simp only [Bool.false_eq_true, if_false]
+    exact putStore_eq mk now now v1 k id topics m hm hmk hc fuel hf
+  | true =>
+    simp only [if_true]
+    have hd := doGC_eq mk now now hnow v1 fuel hfc
+    cases hdg : v1.doGC now with
+    | panic => rw [hdg] at hd; obtain ⟨msg, hm2⟩ := hd; exact ⟨msg, by rw [hm2]⟩
+    | ok v' =>
+      rw [hdg] at hd
+      have hm2 : _ = _ := hd
+      rw [hm2]
+      have hcur2 := doGC_currentID v1 v' now hdg
+      simp only []
+      exact putStore_eq mk now now { v' with lastGC := some now } k id topics m hm hmk
+        (by show ∀ c, v'.currentID = some c → _; rw [hcur2]; exact hc) fuel
+        (by show ∀ c, v'.currentID = some c → _; rw [hcur2]; exact hf)
+
+/-- `ValidReplayer.Put` with `v.Now() = now`, an instant after the zero Time: the model's verdict, stored entry and
+next state (`lastGC ≠ some 0`: the model's `none` is the only zero Time) -/
+theorem validPut_eq (mk : Entry → Gen.Message) (now : Int) (hnow : 0 < now) (v : Valid) (hl : v.lastGC ≠ some 0)
+    (k : Nat) (id : EventID) (topics : List Bytes) (m : Gen.Message) (hm : m.ID = genID id)
+    (hmk : ∀ id' ex, mk { msg := k, id := id', topics := topics, exp := ex } = { m with ID := genID id' })
+    (hc : ∀ c, v.currentID = some c → c + 1 < 18446744073709551616) (fuel : Nat)
+    (hf : ∀ c, v.currentID = some c → (fmtUint c).length < fuel) (hfc : v.messages.count < fuel) :
+    PutAgrees mk (toGenValid mk now) (v.put now k id topics)
+      (Gen.ValidReplayer_Put fuel (toGenValid mk now v) (some m) topics) := by
+  unfold Gen.ValidReplayer_Put Valid.put
+  rw [len_eq_zero_iff]
+  cases ht : topics.isEmpty with
+  | true => simp only [if_true]; rfl
+  | false =>
+    have hn : (toGenValid mk now v).Now = .ok now := rfl
+    simp only [Bool.false_eq_true, if_false, bind, Except.bind, hn]
+    unfold Valid.gcIfDue
+    cases hlg : v.lastGC with
+    | none =>
+      have : ((toGenValid mk now v).lastGC == (0 : Int)) = true := by simp [toGenValid, hlg]
+      simp only [this, if_true, Option.isNone_none]
+      exact put_j1_eq mk now hnow { v with lastGC := some now } k id topics m hm hmk hc fuel hf hfc
+    | some t =>
+      have ht0 : t ≠ 0 := fun e => hl (by rw [hlg, e])
+      have : ((toGenValid mk now v).lastGC == (0 : Int)) = false := by simp [toGenValid, hlg, ht0]
+      simp only [this, Bool.false_eq_true, if_false, Option.isNone_some]
+      exact put_j1_eq mk now hnow v k id topics m hm hmk hc fuel hf hfc
+
+theorem idAgrees_gSlotV (mk : Entry → Gen.Message) (hmk : CarriesID mk) :
+    IDAgrees (gSlotV mk) (fun fuel x => Gen.messageWithTopics_ID fuel x.messageWithTopics) := by
+  intro fuel x
+  cases x with
+  | none => exact ⟨_, rfl⟩
+  | some e =>
+    show Gen.messageWithTopics_ID fuel (gSlotV mk (some e)).messageWithTopics = .ok (genID e.id)
+    unfold Gen.messageWithTopics_ID gSlotV
+    simp [bind, Except.bind, derefPtr, pure, Except.pure, hmk e]
+
+/-- the function literal of `ValidReplayer.Replay`, as translated (`validReplay_unfold` is closed by `rfl`) -/
+def validLit (fuel : Nat) (now : Int) : Int → Gen.messageWithTopicsAndExpiry → (Gen.Subscription (List GCall) × Option String) →
+    GoM (Bool × (Gen.Subscription (List GCall) × Option String)) :=
+  fun _blank m cst_63 => do
+    let subscription := cst_63.1
+    let err := cst_63.2
+    let c_65 ← (if (decide ((m).exp > now)) then do
+        let r_64 ← Gen.topicsIntersect fuel (subscription).Topics (m).messageWithTopics.topics
+        pure r_64
+      else pure false)
+    if c_65 then do
+      let w_66 := ((subscription).Client).send ((subscription).Client).st (m).messageWithTopics.message
+      let subscription := { subscription with Client := { (subscription).Client with st := w_66.2 } }
+      let err : (Option String) := w_66.1
+      if (err != none) then do
+        pure (false, subscription, err)
+      else do
+        pure (true, subscription, err)
+    else do
+      pure (true, subscription, err)
+
+theorem validReplay_unfold (fuel : Nat) (v : Gen.ValidReplayer) (subscription : Gen.Subscription (List GCall)) :
+    Gen.ValidReplayer_Replay fuel v subscription = (do
+      let m_60 ← Gen.findIDInQueue fuel (fun fuel x => Gen.messageWithTopics_ID fuel (x).messageWithTopics) (v).messages (subscription).LastEventID ((v).currentID != none)
+      let v := { v with messages := m_60.2 }
+      let i : Int := m_60.1
+      if (decide (i < (0 : Int))) then do
+        pure (none, v, subscription)
+      else do
+        let f_61 ← (v).Now
+        let now : Int := f_61
+        let err : (Option String) := (none : Option String)
+        let it_67 ← Gen.queue_each fuel (v).messages i (validLit fuel now) (subscription, err)
+        let subscription : (Gen.Subscription (List GCall)) := (it_67.2).1
+        let err : (Option String) := (it_67.2).2
+        if (err != none) then do
+          pure (err, v, subscription)
+        else do
+          let w_68 := ((subscription).Client).flush ((subscription).Client).st
+          let subscription := { subscription with Client := { (subscription).Client with st := w_68.2 } }
+          pure (w_68.1, v, subscription)) := rfl
+
+theorem validLit_agrees (mk : Entry → Gen.Message) (sub : Sub) (buf : List Slot) (fuel : Nat) (now : Int)
+    (hft : TopicsFuel fuel buf sub) :
+    YieldAgrees buf SendInv (gSlotV mk) (sendR mk sub) (validLit fuel now)
+      (sendStep sub fun e => decide (e.exp > now) && topicsIntersect sub.topics e.topics) := by
+  intro st i x hx hP
+  unfold SendInv at hP
+  have hfuel : 0 < fuel := by have := hft.1; omega
+  cases x with
+  | none =>
+    have hs : sendStep sub (fun e => decide (e.exp > now) && topicsIntersect sub.topics e.topics) st i none = .ok (st, true) := rfl
+    rw [hs]
+    refine ⟨?_, fun s' h => ?_⟩
+    · show validLit fuel now (i : Int) (gSlotV mk none) (sendR mk sub st) = .ok (true, sendR mk sub st)
+      unfold validLit gSlotV sendR gSub
+      have := topicsIntersect_eq fuel sub.topics [] hft.1 (by simpa using hfuel)
+      have h0 : topicsIntersect sub.topics [] = false := by
+        unfold topicsIntersect; simp
+      by_cases hz : (0 : Int) > now
+      · simp [hz, bind, Except.bind, this, h0, pure, Except.pure]
+      · simp [hz, bind, Except.bind, pure, Except.pure]
+    · cases h; exact hP
+  | some e =>
+    have hte := topicsIntersect_eq fuel sub.topics e.topics hft.1 (hft.2 e hx)
+    have hcg : (if decide (e.exp > now) then (do
+          let r_64 ← Gen.topicsIntersect fuel sub.topics e.topics
+          pure r_64 : GoM Bool)
+        else pure false) = .ok (decide (e.exp > now) && topicsIntersect sub.topics e.topics) := by
+      by_cases hx' : e.exp > now
+      · simp [hx', bind, Except.bind, hte, pure, Except.pure]
+      · simp [hx', pure, Except.pure]
+    cases hcond : (decide (e.exp > now) && topicsIntersect sub.topics e.topics) with
+    | false =>
+      have hs : sendStep sub (fun e => decide (e.exp > now) && topicsIntersect sub.topics e.topics) st i (some e) = .ok (st, true) := by
+        simp only [sendStep, hcond]; rfl
+      rw [hs]
+      refine ⟨?_, fun s' h => ?_⟩
+      · show validLit fuel now (i : Int) (gSlotV mk (some e)) (sendR mk sub st) = .ok (true, sendR mk sub st)
+        unfold validLit gSlotV sendR gSub
+        simp only [bind, Except.bind] at hcg ⊢
+        rw [hcg]
+        simp [hcond, pure, Except.pure]
+      · cases h; exact hP
+    | true =>
+      by_cases hfail : sub.failAt = some st.calls.length
+      · have hs : sendStep sub (fun e => decide (e.exp > now) && topicsIntersect sub.topics e.topics) st i (some e) =
+            .ok ({ calls := st.calls ++ [.send e], failed := true }, false) := by
+          simp only [sendStep, hcond, hfail]; rfl
+        rw [hs]
+        refine ⟨?_, fun s' h => ?_⟩
+        · show validLit fuel now (i : Int) (gSlotV mk (some e)) (sendR mk sub st) =
+              .ok (false, sendR mk sub { calls := st.calls ++ [.send e], failed := true })
+          unfold validLit gSlotV sendR gSub recW
+          simp only [bind, Except.bind] at hcg ⊢
+          rw [hcg]
+          simp only [hcond, if_true, List.length_map, hfail]
+          simp [pure, Except.pure, gCall]
+        · cases h
+      · have hs : sendStep sub (fun e => decide (e.exp > now) && topicsIntersect sub.topics e.topics) st i (some e) =
+            .ok ({ st with calls := st.calls ++ [.send e] }, true) := by
+          simp only [sendStep, hcond, hfail]; rfl
+        rw [hs]
+        refine ⟨?_, fun s' h => ?_⟩
+        · show validLit fuel now (i : Int) (gSlotV mk (some e)) (sendR mk sub st) =
+              .ok (true, sendR mk sub { st with calls := st.calls ++ [.send e] })
+          unfold validLit gSlotV sendR gSub recW
+          simp only [bind, Except.bind] at hcg ⊢
+          rw [hcg]
+          simp only [hcond, if_true, List.length_map, hfail, if_false]
+          simp [pure, Except.pure, gCall, hP]
+        · cases h; exact hP
+
+/-- `ValidReplayer.Replay` with `v.Now() = now`: the subscriber sees the model's calls in the model's order — only
+entries that expire after `now` —, `Replay` returns the model's error, the replayer is unchanged -/
+theorem validReplay_eq (mk : Entry → Gen.Message) (hmk : CarriesID mk) (now : Int) (v : Valid) (sub : Sub) (fuel : Nat)
+    (hf : v.messages.tail + v.messages.buf.length + 1 < fuel) (hcount : v.messages.count < 9223372036854775808)
+    (hft : TopicsFuel fuel v.messages.buf sub) :
+    ReplayAgrees mk sub (toGenValid mk now v) (Valid.replay v now sub)
+      (Gen.ValidReplayer_Replay fuel (toGenValid mk now v) (gSub sub [])) := by
+  rw [validReplay_unfold]
+  unfold Valid.replay
+  have hfind := findIDInQueue_eq (gSlotV mk) (fun fuel x => Gen.messageWithTopics_ID fuel x.messageWithTopics)
+    (idAgrees_gSlotV mk hmk) v.messages sub.lastEventID v.currentID.isSome fuel hf hcount
+  have hauto : ((toGenValid mk now v).currentID != none) = v.currentID.isSome := by
+    cases h : v.currentID <;> simp [toGenValid, genCur, h]
+  have hbuf : (toGenValid mk now v).messages = toGenQ (gSlotV mk) v.messages := rfl
+  have hlast : (gSub sub []).LastEventID = genID sub.lastEventID := rfl
+  simp only [bind, Except.bind, hauto, hbuf, hlast]
+  cases hfi : findIDInQueue v.messages sub.lastEventID v.currentID.isSome with
+  | panic =>
+    rw [hfi] at hfind
+    obtain ⟨msg, hm⟩ := hfind
+    exact ⟨msg, by rw [hm]⟩
+  | ok i =>
+    rw [hfi] at hfind
+    have hm : _ = _ := hfind
+    rw [hm]
+    have hv' : ({ toGenValid mk now v with messages := toGenQ (gSlotV mk) v.messages } : Gen.ValidReplayer) = toGenValid mk now v := rfl
+    simp only [hv']
+    by_cases hneg : i < 0
+    · simp only [hneg, decide_true, if_true, pure, Except.pure, ReplayAgrees, errOf, List.map_nil]
+    · have hi : ((i.toNat : Nat) : Int) = i := by omega
+      have hn : (toGenValid mk now v).Now = .ok now := rfl
+      simp only [hneg, decide_false, Bool.false_eq_true, if_false, hbuf, hn]
+      have he := each_eq SendInv (gSlotV mk) (sendR mk sub) (validLit fuel now)
+        (sendStep sub fun e => decide (e.exp > now) && topicsIntersect sub.topics e.topics) v.messages
+        (validLit_agrees mk sub v.messages.buf fuel now hft)
+        i.toNat { calls := [], failed := false } rfl fuel hf
+      rw [hi] at he
+      have hr0 : sendR mk sub { calls := [], failed := false } = (gSub sub [], (none : Option String)) := rfl
+      rw [hr0] at he
+      cases hea : v.messages.each i.toNat (sendStep sub fun e => decide (e.exp > now) && topicsIntersect sub.topics e.topics) { calls := [], failed := false } with
+      | panic =>
+        rw [hea] at he
+        obtain ⟨msg, hm2⟩ := he
+        exact ⟨msg, by rw [hm2]⟩
+      | ok st =>
+        rw [hea] at he
+        have hm2 : _ = _ := he
+        rw [hm2]
+        simp only [ReplayAgrees, finishReplay, sendR]
+        by_cases hfl : st.failed = true
+        · simp [hfl, pure, Except.pure, errOf]
+        · by_cases hff : sub.flushFails = true <;>
+            simp [hfl, pure, Except.pure, errOf, gSub, recW, gCall, hff]
+
 end GoSSE.GenEquiv
